@@ -139,6 +139,3 @@ pub trait RestartStrategy<A: Actor> {
             Self::kind() is Fresh ==> (r is Ok ==> final(w).lc.recreated == old(w).lc.recreated + 1),                            // @ob refresh.recreate-uses-default C07
     ;
 }
-// `Default::default()` where a ContextID is expected: the id counter's contract (proved in unit envctor: `contextid.default-issues-a-fresh-id`)
-pub trait DefaultV: Sized { spec fn is_default(&self) -> bool; fn default_value() -> (r: Self) ensures r.is_default(); }
-impl DefaultV for ContextID { open spec fn is_default(&self) -> bool { fresh_context_id(self.0 as int) } fn default_value() -> (r: Self) { ContextID::default() } }
